@@ -117,6 +117,75 @@ pub struct CmdTest {
     opt: OptTest,
 }
 
+/// Verification hook (compiled only with `--cfg veryl_verif`): lets a harness own the two
+/// scheduling decisions of the native-test worker pool.  `VERYL_VERIF_WORKERS=n` overrides the
+/// worker count; `VERYL_VERIF_POP_SCHEDULE=w0,w1,...` makes the i-th pop of the pending queue be
+/// taken by worker `w_i` (each worker waits for its turn before popping).  Every pop is logged on
+/// stderr as `verif:pop i=<i> worker=<w> test=<name|->`.  Inert when the variables are unset.
+#[cfg(veryl_verif)]
+mod verif_pop {
+    use std::sync::atomic::{AtomicUsize, Ordering};
+    use std::sync::{Condvar, Mutex, OnceLock};
+
+    static NEXT_WORKER: AtomicUsize = AtomicUsize::new(0);
+    static TURN: Mutex<usize> = Mutex::new(0);
+    static TURN_CV: Condvar = Condvar::new();
+    static SCHEDULE: OnceLock<Option<Vec<usize>>> = OnceLock::new();
+
+    pub fn workers_override() -> Option<usize> {
+        std::env::var("VERYL_VERIF_WORKERS")
+            .ok()
+            .and_then(|x| x.trim().parse::<usize>().ok())
+            .filter(|n| *n >= 1)
+    }
+
+    fn schedule() -> Option<&'static Vec<usize>> {
+        SCHEDULE
+            .get_or_init(|| {
+                let text = std::env::var("VERYL_VERIF_POP_SCHEDULE").ok()?;
+                text.split(',')
+                    .filter(|x| !x.trim().is_empty())
+                    .map(|x| x.trim().parse::<usize>().ok())
+                    .collect::<Option<Vec<usize>>>()
+            })
+            .as_ref()
+    }
+
+    pub fn active() -> bool {
+        workers_override().is_some() || schedule().is_some()
+    }
+
+    /// Index of the calling worker: 0, 1, ... in thread start order.
+    pub fn worker_index() -> usize {
+        NEXT_WORKER.fetch_add(1, Ordering::SeqCst)
+    }
+
+    /// Blocks until the next scheduled pop belongs to `worker` (or the schedule is exhausted).
+    pub fn wait_turn(worker: usize) {
+        let Some(schedule) = schedule() else { return };
+        let mut turn = TURN.lock().unwrap();
+        while *turn < schedule.len() && schedule[*turn] != worker {
+            turn = TURN_CV.wait(turn).unwrap();
+        }
+    }
+
+    /// Records the pop just made by `worker` and hands the turn on.
+    pub fn popped(worker: usize, test: Option<&str>) {
+        if !active() {
+            return;
+        }
+        let mut turn = TURN.lock().unwrap();
+        eprintln!(
+            "verif:pop i={} worker={} test={}",
+            *turn,
+            worker,
+            test.unwrap_or("-")
+        );
+        *turn += 1;
+        TURN_CV.notify_all();
+    }
+}
+
 struct NativeTestJob {
     module_name: String,
     sim_ir: Ir,
@@ -389,6 +458,8 @@ impl CmdTest {
                 .map(|n| n.get())
                 .unwrap_or(1)
                 .min(pending_native.len());
+            #[cfg(veryl_verif)]
+            let num_threads = verif_pop::workers_override().unwrap_or(num_threads);
             // Buffer `$display` output to keep concurrent tests from interleaving.
             // A single worker can't interleave, so stream live; `--no-capture`
             // forces streaming even in parallel.
@@ -453,8 +524,17 @@ impl CmdTest {
                                 let (mut tally_pass, mut tally_fail) = (0, 0);
                                 let mut tally_waves: Vec<PathBuf> = Vec::new();
                                 let mut tally_timings: Vec<(String, f64)> = Vec::new();
+                                #[cfg(veryl_verif)]
+                                let verif_worker = verif_pop::worker_index();
                                 loop {
+                                    #[cfg(veryl_verif)]
+                                    verif_pop::wait_turn(verif_worker);
                                     let pending = queue.lock().unwrap().next();
+                                    #[cfg(veryl_verif)]
+                                    verif_pop::popped(
+                                        verif_worker,
+                                        pending.as_ref().map(|p| p.test_name.as_str()),
+                                    );
                                     let Some(pending) = pending else { break };
                                     if buffered {
                                         output_buffer::enable();
